@@ -67,10 +67,11 @@ def run(chk, prog):
         return True
 
     def test(t, env, concrete):
+        conc = (lambda v: concrete) if isinstance(concrete, bool) else (lambda v: concrete.get(v, False))
         if is_t(t, "is"):
-            return concrete and ev_int(t[1], env) is t[2][1]
+            return conc(t[1]) and ev_int(t[1], env) is t[2][1]
         if is_t(t, "cmp") and t[1] == "==":
-            return concrete and ev_int(t[2], env) == ev_int(t[3], env)
+            return conc(t[2]) and ev_int(t[2], env) == ev_int(t[3], env)
         if is_t(t, "bool"):
             vs = [test(x, env, concrete) for x in t[2]]
             return all(vs) if t[1] == "and" else any(vs)
@@ -82,7 +83,8 @@ def run(chk, prog):
         r = ev.eval_fn(M.methods[meth], M.module, M)
         rows, ok, why = 0, True, []
         try:
-            for concrete in (True, False):
+            for c1, c2 in itertools.product([True, False], repeat=2):  # each flag independently a Python bool or traced
+                concrete = {F1: c1, F2: c2}
                 for f1, f2 in itertools.product([True, False], repeat=2):
                     fired = [ret for conds, ret in r.returns if arm_fires(conds, f1, f2, concrete)]
                     if not fired:
@@ -95,7 +97,7 @@ def run(chk, prog):
                     want_side = "self" if f1 else "other"
                     if bool(flag) != want_flag or (want_flag and side != want_side):
                         ok = False
-                        why.append(f"{'concrete' if concrete else 'traced'} flags {(f1, f2)}: flag={flag} side={side}, expected flag={want_flag} side={want_side}")
+                        why.append(f"flags {(f1, f2)} ({'bool' if c1 else 'traced'}, {'bool' if c2 else 'traced'}): flag={flag} side={side}, expected flag={want_flag} side={want_side}")
         except Unrecognised as e:
             raise AnalysisError(f"Mask.{meth}: unrecognised form {e}")
         chk.require(ok, "MASK-TABLE", f"Mask.{meth}", f"truth table of {meth}", derived=f"{rows} rows; " + "; ".join(why)[:400], expected="flag = f1 op f2 in every arm (concrete and traced); where the flag is True the value comes from self if f1 else other", where=W(meth))
